@@ -19,8 +19,8 @@ func TestMain(m *testing.M) {
 	evid.Tests(
 		evid.Spec{Name: "TestReplay", Kind: "plain", QuickShards: 1, ThoroughShards: 1},
 		evid.Spec{Name: "TestExhaustivePairs", Kind: "plain", QuickShards: 16, ThoroughShards: 16, TimeoutS: 3000},
-		evid.Spec{Name: "TestPropLCSRandom", Kind: "rapid", Quick: 24000, Thorough: 800000, QuickShards: 8, ThoroughShards: 16},
-		evid.Spec{Name: "TestPropD1Random", Kind: "rapid", Quick: 24000, Thorough: 800000, QuickShards: 4, ThoroughShards: 16},
+		evid.Spec{Name: "TestPropLCSRandom", Kind: "rapid", Quick: 64000, Thorough: 800000, QuickShards: 8, ThoroughShards: 16},
+		evid.Spec{Name: "TestPropD1Random", Kind: "rapid", Quick: 64000, Thorough: 800000, QuickShards: 8, ThoroughShards: 16},
 		evid.Spec{Name: "FuzzLCS", Kind: "fuzz", Thorough: 90, ThoroughOnly: true, QuickShards: 1, ThoroughShards: 1},
 		evid.Spec{Name: "TestPropConcurrentCalls", Kind: "rapid", Quick: 1600, Thorough: 40000, QuickShards: 8, ThoroughShards: 16},
 		evid.Spec{Name: "TestPropBufferReuse", Kind: "rapid", Quick: 4000, Thorough: 100000, QuickShards: 4, ThoroughShards: 16},
